@@ -355,6 +355,75 @@ let dirs_run (lines : string list) : unit =
         | _ -> failwith ("bad dirs line: " ^ l))
     lines
 
+(* ---------- faults (C10, inline part) ---------- *)
+(* case line: <id> dedup=0|1 late=0|1 buf=N order=<rid>:<free>:<cap>:<keep>|<rid>:<free>:-,... seed=S chunks=<n>,<n>,F,...
+   the source bytes come from the same LCG as harness/faults.go (srcBytes); chunks = sizes of the
+   source's Read results in order, F = the Read that fails *)
+let byte_tab : n array = Array.init 256 (fun i -> n_of_i64 (Int64.of_int i))
+let lcg_stream (seed : int) : unit -> n =
+  let x = ref ((seed * 1000003 + 12345) land 0x7fffffff) in
+  fun () ->
+    x := (!x * 1103515245 + 12345) land 0x7fffffff;
+    byte_tab.((!x lsr 16) land 0xff)
+let ident_of_bytes (l : n list) : string =
+  let b = Buffer.create 1024 in
+  List.iter (fun x -> Buffer.add_char b (Char.chr (Int64.to_int (i64_of_n x)))) l;
+  let d = Digest.to_hex (Digest.string (Buffer.contents b)) in
+  Printf.sprintf "%d:%s" (Buffer.length b) (String.sub d 0 12)
+let kv_of_tokens (toks : string list) : (string * string) list =
+  List.filter_map (fun t ->
+      match String.index_opt t '=' with
+      | Some i -> Some (String.sub t 0 i, tail_from t (i + 1))
+      | None -> None) toks
+let faults_case (line : string) : string =
+  match split_ws line with
+  | [] -> ""
+  | id :: toks ->
+    let kv = kv_of_tokens toks in
+    let get k = try List.assoc k kv with Not_found -> failwith ("faults case lacks " ^ k ^ ": " ^ line) in
+    let order =
+      if get "order" = "-" then [] else
+      List.map (fun r ->
+          match String.split_on_char ':' r with
+          | [rid; fr; "-"] -> { r_id = n_of_string rid; r_free = n_of_string fr; r_fault = NoFault }
+          | [rid; fr; cap; keep] ->
+            { r_id = n_of_string rid; r_free = n_of_string fr; r_fault = EnospcAt (n_of_string cap, n_of_string keep) }
+          | _ -> failwith ("bad root " ^ r)) (String.split_on_char ',' (get "order")) in
+    let next = lcg_stream (int_of_string (get "seed")) in
+    let src =
+      if get "chunks" = "-" then [] else
+      List.map (fun c ->
+          if c = "F" then Fail
+          else Data (List.init (int_of_string c) (fun _ -> next ())))
+        (String.split_on_char ',' (get "chunks")) in
+    let r = run_faults (get "dedup" = "1") (get "late" = "1") (nat_of_int (int_of_string (get "buf"))) order src in
+    let dash s = if s = "" then "-" else s in
+    let coq_bytes l = "[" ^ String.concat ";" (List.map string_of_n l) ^ "]" in
+    if List.mem_assoc "raw" kv then
+      (* the result as a Coq term, for the vm_compute cross-check of the extraction *)
+      id ^ " | coq=mkres (" ^
+      (match r.res_out with
+       | Stored (rid, c) -> "Stored " ^ string_of_n rid ^ " " ^ coq_bytes c
+       | Err ENoFreeSpace -> "Err ENoFreeSpace" | Err EReader -> "Err EReader" | Err EClosed -> "Err EClosed") ^
+      ") [" ^ String.concat ";" (List.map (fun (rid, c) -> "(" ^ string_of_n rid ^ "," ^ coq_bytes c ^ ")") r.res_orphans) ^
+      "] [" ^ String.concat ";" (List.map string_of_n r.res_visited) ^ "] " ^ string_of_int (int_of_nat r.res_leaked) ^ "%nat"
+    else
+    let err, stored =
+      match r.res_out with
+      | Stored (rid, c) -> "ok", string_of_n rid ^ ":" ^ ident_of_bytes c
+      | Err ENoFreeSpace -> "NoFreeSpace", "-"
+      | Err EReader -> "other:reader", "-"
+      | Err EClosed -> "other:closed", "-" in
+    String.concat " | " [
+      id;
+      "visited=" ^ dash (String.concat "," (List.map string_of_n r.res_visited));
+      "err=" ^ err;
+      "stored=" ^ stored;
+      "orph=" ^ dash (String.concat ";" (List.map (fun (rid, c) -> string_of_n rid ^ ":" ^ ident_of_bytes c) r.res_orphans));
+      "leaks=" ^ string_of_int (int_of_nat r.res_leaked);
+      "src=" ^ ident_of_bytes (src_bytes src) ]
+
+
 let () =
   let cmd = Sys.argv.(1) in
   let lines = read_lines Sys.argv.(2) in
@@ -384,6 +453,7 @@ let () =
     | "vlist" -> vlist_case vrun
     | "vlist-spec" -> vlist_case vrun_spec
     | "codec" -> codec_case
+    | "faults" -> faults_case
     | "config" -> config_case
     | "errmap" -> errmap_case
     | _ -> failwith ("unknown command " ^ cmd)
